@@ -1470,6 +1470,10 @@ def extract_runtime(src: Path) -> str:
                 replaces = False
             elif len(clear_src) == 1 and clear_src[0].startswith("self._event = "):
                 replaces = True
+            elif (len(clear.body) == 1 and isinstance(clear.body[0], ast.If) and not clear.body[0].orelse  # type: ignore
+                  and ast.unparse(clear.body[0].test) == "self._event.is_set()"  # type: ignore
+                  and [ast.unparse(x)[:14] for x in clear.body[0].body] == ["self._event = "]):  # type: ignore
+                replaces = True        # replaced when set; an unset event is left alone (nobody waiting on it is orphaned)
             else:
                 fail(f"runtime {worker}", f"EventWrapper.clear is {clear_src}")
                 continue
